@@ -359,7 +359,7 @@ Proof.
     set (n1 := Z.to_nat (cap - (i + 1))).
     set (sl := slc v (VCell NB 0) (VCell PB 0)).
     set (pc0 := hs ++ zeros (S n1)). set (nc0 := qs ++ zeros (S n1)).
-    destruct (read_string_call (HP sl pc0 nc0 blocks) fv tok VNull bv k s m o I I Hs) as (st1 & e1 & l1 & t1 & c11 & cs1 & k1 & s1 & m1 & RS & (x1 & Hm1) & Out1 & PP1 & _).
+    destruct (read_string_call (HP sl pc0 nc0 blocks) fv tok VNull bv k s m o I I Hs) as (st1 & e1 & l1 & t1 & c11 & cs1 & k1 & s1 & m1 & RS & (x1 & Hm1) & Out1 & PP1 & MT1 & KK1).
     assert (So1 : storable cs1 = true) by (destruct Out1 as [(_ & -> & _)|(_ & ->)]; reflexivity).
     assert (N3 : bsE prog_env (SSeq (SExpr (EAssign "$a2" (ECellLoad (ECellLoad (EVar "t") (EConst 2) true) (EVar "i") true))) (SSeq (SCall (Some "error") "sbdf_read_string" [(AVal (EVar "f")); (AAddr "$a2")]) (SExpr (ECellStore (ECellLoad (EVar "t") (EConst 2) true) (EVar "i") (EVar "$a2")))))%string
                    (lst i 0 0 a2 a3 pc0 nc0 blocks k s m) (ONormal (lst i st1 0 cs1 a3 pc0 (qs ++ cs1 :: zeros n1) blocks k1 s1 m1))).
@@ -398,7 +398,7 @@ Proof.
     cbn [props_nobit props_end] in NBP |- *.
     destruct (read_string false None s) as [[nm sR]|eR] eqn:ERS; [|contradiction]. subst sR.
     destruct NBP as (NB1 & NBP).
-    destruct (va_read_bs bv o rf ROut fo 0 k1 s1 (HP sl pc0 nc1 blocks) m1 VNull Hs1 NB1) as (st2 & e2 & sh2 & k2 & s2 & h2 & m3 & BV & (x2 & Hm3) & Out2 & PP2 & _).
+    destruct (va_read_bs bv o rf ROut fo 0 k1 s1 (HP sl pc0 nc1 blocks) m1 VNull Hs1 NB1) as (st2 & e2 & sh2 & k2 & s2 & h2 & m3 & BV & (x2 & Hm3) & Out2 & PP2 & MT2 & KK2).
     rewrite HP_len in Out2.
     assert (Hmm3 : zlen m1 <= zlen m3) by (rewrite Hm3, zlen_app; pose proof (zlen_nonneg x2); lia).
     assert (Htl : exists X, h2 = HP sl pc0 nc1 (blocks ++ X)) by (destruct Out2 as [(_ & _ & _ & blk' & newb' & -> & _)|(_ & _ & j & ->)]; eexists; apply HP_app).
